@@ -6,10 +6,19 @@
 #include <algorithm>
 
 void World::c10_offer(Client &cl, const struct iovec *iov, int cnt) {
-	std::string P, F;
-	if (cnt > 0) P.assign((const char *)iov[0].iov_base, iov[0].iov_len);
-	for (int i = 1; i < cnt; i++) F.append((const char *)iov[i].iov_base, iov[i].iov_len);
+	// What the daemon gathers for one write is "what it still owes the kernel, then what it generates now". Where one ends and the other begins
+	// is taken from what is known to be owed, not from the shape of the call (how many buffers, whether an empty one is passed, writev or sendmsg).
+	std::string G, P, F;
+	for (int i = 0; i < cnt; i++) G.append((const char *)iov[i].iov_base, iov[i].iov_len);
 	C10State &s = cl.c10;
+	size_t first_len = cnt > 0 ? iov[0].iov_len : 0;
+	if (s.owed_valid) {
+		// the alternative the call's own first buffer points at, else the longest one the gathered bytes begin with
+		const std::string *pick = nullptr;
+		for (auto &c : s.owed) if (c.size() <= G.size() && G.compare(0, c.size(), c) == 0) { if (!pick || c.size() == first_len || (pick->size() != first_len && c.size() > pick->size())) pick = &c; }
+		if (pick) { P = *pick; F = G.substr(P.size()); }
+		else { P = G.substr(0, std::min(first_len, G.size())); F = G.substr(P.size()); }
+	} else F = G;
 	// 1. the pending buffer the daemon shows must be what it still owes the kernel
 	if (s.owed_valid) {
 		bool ok = false;
